@@ -97,11 +97,23 @@ func c07Payload(b byte) []byte {
 }
 
 // proposals are identified by one payload byte; the JSON codec is replaced by this contract
+// Like encoding/json it only assigns the fields present in the text: RaftProposal marshals DB and Args with
+// omitempty, so a proposal on database 0 / without Args leaves those fields of the target untouched.
 func c07Unmarshal(data []byte, v interface{}) error {
 	p := v.(*RaftProposal)
 	p.ID = string(data)
+	if f, ok := c07Fields[string(data)]; ok {
+		if f.DB != 0 {
+			p.DB = f.DB
+		}
+		if f.Args != nil {
+			p.Args = f.Args
+		}
+	}
 	return nil
 }
+
+var c07Fields = map[string]*RaftProposal{}
 
 // ---------------------------------------------------------------------------
 // VF_C07_entries_to_apply: exactly the entries above appliedIndex, in order, for every index value.
@@ -135,9 +147,16 @@ func VF_C07_entries_to_apply() {
 // ---------------------------------------------------------------------------
 // VF_C07_publish: publishEntries delivers one proposal per non-empty normal entry, in log order, in one
 // commit, and moves appliedIndex to the last entry.
-func VF_C07_publish() {
+func VF_C07_publish() { c07Publish() }
+
+// the same obligation under C14: what reaches the executor on the cluster path is the proposal as it was
+// made (database, argument vector), whatever else is in the same committed batch
+func VF_C14_publish_fields() { c07Publish() }
+
+func c07Publish() {
 	vfStubFunc("encoding/json.Unmarshal", c07Unmarshal)
 	c07Events = nil
+	c07Fields = map[string]*RaftProposal{}
 	commitC := make(chan *RaftCommit, 1)
 	node := &c07Node{}
 	rc := &RaftNode{commitC: commitC, stopc: make(chan struct{}), Node: node, transport: &rafthttp.Transport{}, id: 1}
@@ -153,6 +172,14 @@ func VF_C07_publish() {
 		case 0:
 			e.Data = c07Payload(byte('a' + i))
 			want = append(want, byte('a'+i))
+			f := &RaftProposal{DB: 3 * vfChoice("db", 2)}
+			if vfChoice("args", 2) == 1 {
+				f.Args = [][]byte{{byte('A' + i)}}
+			}
+			c07Fields[string([]byte{byte('a' + i)})] = f
+			if !vfIsSymbolic() {
+				e.Data = (&RaftProposal{ID: string([]byte{byte('a' + i)}), DB: f.DB, Args: f.Args}).ToBytes()
+			}
 		case 1: // the empty entry a new leader appends
 		case 2:
 			e.Type = raftpb.EntryConfChange
@@ -174,6 +201,12 @@ func VF_C07_publish() {
 	for i := range want {
 		if i < len(c.Data) {
 			vfAssert(c.Data[i].ID == string([]byte{want[i]}), "proposals-out-of-log-order")
+			f := c07Fields[string([]byte{want[i]})]
+			vfAssert(c.Data[i].DB == f.DB, "proposal-database-changed")
+			vfAssert((c.Data[i].Args == nil) == (f.Args == nil), "proposal-arguments-changed")
+			if f.Args != nil && c.Data[i].Args != nil {
+				vfAssert(len(c.Data[i].Args) == 1 && c.Data[i].Args[0][0] == f.Args[0][0], "proposal-arguments-changed")
+			}
 		}
 	}
 	vfAssert(done != nil, "no-apply-done-channel")
